@@ -17,7 +17,7 @@
 
     All rule theorems are for ALL widths (up to u32::MAX), both signs, ALL operand terms and
     ALL environments - no bound. *)
-From Patronus Require Import Arith ArithLemmas ArithProofs.
+From Patronus Require Import Arith ArithLemmas ArithProofs ArithRoundtrip.
 Open Scope N_scope.
 
 (** ** the denotation of a node is derived from what [from_arith] builds *)
@@ -150,6 +150,45 @@ Theorem C19_unmerge_left_shift_rhs_overflow_refuted :
 Proof. exact unmerge_left_shift_rhs_overflow_lemma. Qed.
 Print Assumptions C19_unmerge_left_shift_rhs_overflow_refuted.
 
+(** ** conversion to the e-graph language and back *)
+
+(** [convertible e]: rooted at add/sub/mul/shl/lshr/ashr, operands are symbols or such
+    operations under a (possibly empty) chain of extensions OF ONE KIND, stored widths fit u32.
+    Then [from_arith (to_arith e)] exists, is well typed, has the width of [e] and the value of
+    [e] under every environment. *)
+Theorem arith_roundtrip : forall e, wt e = true -> convertible e = true ->
+  exists e', roundtrip e = Ok e' /\ wt e' = true /\ type_of e' = type_of e /\
+    forall rho, env_wf rho -> ebv rho e' = ebv rho e.
+Proof. exact arith_roundtrip_lemma. Qed.
+Print Assumptions arith_roundtrip.
+
+(** the hypothesis of the plan, "at most one extension per operand", is a special case *)
+Theorem arith_roundtrip_one_ext : forall e, wt e = true -> convertible_one_ext e = true ->
+  exists e', roundtrip e = Ok e' /\ wt e' = true /\ type_of e' = type_of e /\
+    forall rho, env_wf rho -> ebv rho e' = ebv rho e.
+Proof. exact arith_roundtrip_one_ext_lemma. Qed.
+Print Assumptions arith_roundtrip_one_ext.
+
+(** known finding: without the restriction on the chains the statement is false -
+    [to_arith] records only the outermost extension kind.
+    Witness: add(zext(sext(x:bv<2>, 2), 3), y:bv<7>), x = 0b10, y = 0: 14 becomes 2.
+    (The unrestricted statement - NOT a theorem - would read:
+       forall e, wt e = true -> convertible_shape e = true -> exists e', roundtrip e = Ok e' /\ ... same value.) *)
+Theorem arith_roundtrip_nested_refuted :
+  exists e rho, wt e = true /\ convertible_shape e = true /\ env_wf rho /\
+    exists e', roundtrip e = Ok e' /\ ebv rho e' <> ebv rho e.
+Proof. exact arith_roundtrip_nested_refuted_lemma. Qed.
+Print Assumptions arith_roundtrip_nested_refuted.
+
+(** outside the fragment the implementation has [todo!]/debug assertions: the model panics
+    (literal operand; root symbol; root extension) *)
+Theorem C19_to_arith_unsupported_panics :
+  to_arith (BVAdd (BVLiteral 4 3) (BVSymbol "y" 4) 4) = Panic /\
+  roundtrip (BVSymbol "y" 4) = Panic /\
+  to_arith (BVZeroExt (BVAdd (BVSymbol "x" 4) (BVSymbol "y" 4) 4) 2 6) = Panic.
+Proof. exact to_arith_unsupported_lemma. Qed.
+Print Assumptions C19_to_arith_unsupported_panics.
+
 (** ** non-vacuity *)
 
 (** the hypotheses of the shift rules are satisfiable on symbols, and the lowered sides are
@@ -175,4 +214,21 @@ Example C19_example_unmerge_lsm_mult :
   eval_condition rule_mult_to_add (asg_commute 4 4 2 true true) = Ok false /\
   (* the saturated width: wb >= 32 *)
   eval_width_left_shift 7 32 = Ok u32_max.
+Proof. vm_compute. repeat split. Qed.
+
+(** the repository's own example (arithmetic.rs verification_fig_1, the implementation side)
+    is in the fragment and the round trip returns it unchanged *)
+Example C19_example_roundtrip :
+  let a := BVSymbol "A" 16 in let b := BVSymbol "B" 16 in
+  let m := BVSymbol "M" 4 in let n := BVSymbol "N" 4 in
+  let e := BVShiftLeft (BVZeroExt (BVMul (BVZeroExt a 16 32) (BVZeroExt b 16 32) 32) 31 63)
+                       (BVZeroExt (BVAdd (BVZeroExt m 1 5) (BVZeroExt n 1 5) 5) 58 63) 63 in
+  wt e = true /\ convertible e = true /\ convertible_one_ext e = true /\ roundtrip e = Ok e.
+Proof. vm_compute. repeat split. Qed.
+
+(** a uniform chain of two sign extensions is in the fragment (and comes back as one) *)
+Example C19_example_roundtrip_chain :
+  let e := BVAdd (BVSignExt (BVSignExt (BVSymbol "x" 2) 2 4) 3 7) (BVSymbol "y" 7) 7 in
+  wt e = true /\ convertible e = true /\ convertible_one_ext e = false /\
+  roundtrip e = Ok (BVAdd (BVSignExt (BVSymbol "x" 2) 5 7) (BVSymbol "y" 7) 7).
 Proof. vm_compute. repeat split. Qed.
